@@ -39,10 +39,18 @@ def setup(shard):
     env.eop("missing-pass")
 
 
+_LABELS = {"epoch": "UTC", "ops": "UTC"}
+LABELS = ["UTC", "UTC", "UTC", "TT", "GPS", "TAI"]  # exact offsets: the same instants to the microsecond
+
+
 def mkdate(us):
+    """The instant T0 + us, written in the time scale this history uses for its epoch (us = 0) or for the
+    dates of its requests: the instants are the same, so nothing may depend on it."""
     from beyond.dates import Date
 
-    return Date(T0 + timedelta(microseconds=int(us)))
+    d = Date(T0 + timedelta(microseconds=int(us)))
+    label = _LABELS["epoch" if us == 0 else "ops"]
+    return d if label == "UTC" else d.change_scale(label)
 
 
 def us_of(date):
@@ -748,10 +756,11 @@ def history(draw, kind):
     span = (init["npts"] - 1) * h_us if kind == "ephem" else 30 * h_us
     nops = draw(st.integers(2, 6))
     ops = [draw(op_strategy(kind, h_us, span)) for _ in range(nops)]
-    return dict(kind=kind, init=init, ops=ops)
+    return dict(kind=kind, init=init, ops=ops, label=draw(st.sampled_from(LABELS)), epoch_label=draw(st.sampled_from(LABELS)))
 
 
 def check(case):
+    _LABELS.update(epoch=case.get("epoch_label", "UTC"), ops=case.get("label", "UTC"))
     m = Machine(case)
     tags = m.run()
     kinds = {t for t in tags if t in ("propagate", "iter_range", "iter_dates", "iter_daterange", "ephem", "iter_listeners", "iter_own",
@@ -759,6 +768,8 @@ def check(case):
     # an op that failed as a listed known finding and after which the history went on also counts:
     # what follows it runs on objects that have been through a failing call
     special = {"backward", "step-not-dividing", "shorter-than-interp-order", "stop-off-grid", "known-finding-op"} & set(tags)
+    labels = {case.get("label", "UTC"), case.get("epoch_label", "UTC")}
+    tags.append("labels:all-UTC" if labels == {"UTC"} else "labels:mixed")
     return dict(nt=len(kinds) >= 2 and bool(special), cls=sorted(set(tags)), known=m.known)
 
 
